@@ -113,7 +113,8 @@ def plane_table(ctx):
     got = q[0].env.get('planenormal')
     ctx.ob('PLANE-TABLE', loc, 'the Cartesian normal is s·(a·cell) × (b·cell) in the (primitive) cell the indices refer to', got is not None and equal(np.asarray(got, dtype=object), sg * np.cross(av.dot(V), bv.dot(V)), deep=False), node=pn[0], key='normal')
     # which cell: the head of the function (up to the search) evaluated with token cells
-    start = [k for k, s_ in enumerate(fn.body) if isinstance(s_, ast.Assign) and norm(s_.targets[0]) == 'a_mag']
+    gen_ = [k for k, s_ in enumerate(fn.body) if isinstance(s_, ast.FunctionDef)]
+    start = [gen_[-1]] if gen_ else [k for k, s_ in enumerate(fn.body) if isinstance(s_, ast.Assign) and norm(s_.targets[0]) == 'a_mag']
     ctx.need(len(start) == 1, 'free_surface_basis: start of the search section not found')
     head = [s_ for s_ in fn.body[:start[0]] if not isinstance(s_, ast.FunctionDef)]
     for tag, setting in (('no conventional setting', None), ('face-centred conventional setting', 'f'), ('body-centred conventional setting', 'i')):
@@ -165,8 +166,10 @@ def plane_table(ctx):
 
 def _search_eval(ctx, fn, V, normal, maxindex, order=None):
     """interpret the two candidate-search loops on a concrete cell; the candidate generator is replaced by an explicit list"""
-    start = [k for k, s in enumerate(fn.body) if isinstance(s, ast.Assign) and norm(s.targets[0]) == 'a_mag']
-    end = [k for k, s in enumerate(fn.body) if isinstance(s, ast.If) and "cutboxvector == 'c'" in norm(s.test)]
+    # the search section: everything between the candidate generator (a nested def) and the arrangement by cutboxvector
+    gen = [k for k, s in enumerate(fn.body) if isinstance(s, ast.FunctionDef)]
+    start = [gen[-1] + 1] if gen else [k for k, s in enumerate(fn.body) if isinstance(s, ast.Assign) and norm(s.targets[0]) == 'a_mag']
+    end = [k for k, s in enumerate(fn.body) if isinstance(s, ast.If) and 'cutboxvector' in norm(s.test) and k > (start[0] if start else 0)][:1]
     if len(start) != 1 or len(end) != 1:
         raise AnalysisError('free_surface_basis: the search section is not recognisable')
     stmts = [s for s in fn.body[start[0]:end[0]] if not isinstance(s, ast.FunctionDef)]
